@@ -449,6 +449,24 @@ func (f *famBuilders) augment() error {
 			return err
 		}
 	}
+	// manifests: a generated profile listed in the common manifest AND, with other flags, in every
+	// distribution's (the distribution's entry wins); the last entry of each manifest has no final newline
+	appendNoNL := func(p, lines string) error {
+		b, _ := os.ReadFile(p)
+		t := strings.TrimRight(string(b), "\n")
+		if t != "" {
+			t += "\n"
+		}
+		return os.WriteFile(p, []byte(t+lines), 0o644)
+	}
+	if err := appendNoNL(filepath.Join(f.aug, "dists", "flags", "main.flags"), "aa-vgen-hist-only1 complain\nzz-vgen-hist-only2 mediate_deleted,complain"); err != nil {
+		return err
+	}
+	for _, d := range Dists {
+		if err := appendNoNL(filepath.Join(f.aug, "dists", "flags", d+".flags"), "aa-vgen-hist-only1 attach_disconnected"); err != nil {
+			return err
+		}
+	}
 	return nil
 }
 
